@@ -39,6 +39,7 @@ fn harnesses() -> Vec<Box<dyn Harness>> {
         Box::new(h_c05::EventHarness { counting: false }),
         Box::new(h_c05::EventHarness { counting: true }),
         Box::new(h_proc::ProcHarness { kind: "c04" }),
+        Box::new(h_proc::ProcHarness { kind: "c06" }),
         Box::new(h_proc::ProcHarness { kind: "c07" }),
         Box::new(h_ps::PubSubHarness { ipc: false, prop: "C08" }),
         Box::new(h_ps::PubSubHarness { ipc: true, prop: "C08" }),
@@ -89,6 +90,7 @@ fn spec_for<'a>(hs: &'a [Box<dyn Harness>], prop: &'a str) -> CheckSpec<'a> {
         "C20" => "one evaluation = one simulated history of 8..50 calls on one wait set with 1..4 listeners on 1..2 event services: attach notification / deadline / interval, drop guard, destroy and re-create a listener (descriptor re-use), notify, notify from inside the callback, advance the virtual clock, process with zero timeout; a model of live attachments, pending events and deadline/interval expiry predicts the exact set of callbacks of every processing call. Each run executes in a forked child. distinct_nontrivial = distinct operation histories",
         "C17" => "one evaluation = one simulated life of an object graph (1..2 nodes, two service handles, two ports, loaned and received sample / pending response, active request, response / notifier, listener) for one of the three patterns publish-subscribe, request-response, event: the seeded plan interleaves 'drop some still living object' with uses of whatever is alive; afterwards the file system is scanned for leftovers and the name is created again with different settings. distinct_nontrivial = distinct (pattern, node count, complete drop order) triples",
         "C04" => "one evaluation = one controlled execution of 2 real processes on the ipc variant: a victim performing a lifecycle segment (node, service open/create, port, send/receive, event service + notifier, orderly drop) and a survivor that shares (or not) the service; the controller steps both at every wrapped system call and every atomic operation on shared memory, kills the victim with SIGKILL at a chosen yield (anywhere / biased into constructors / biased into destructors), advances virtual time past the timeouts, and then lets the survivor list nodes, clean up, re-open the service, create fresh ports and do a round trip; afterwards the files the victim alone created must be gone. distinct_nontrivial = distinct (scenario, schedule, kill point) signatures",
+        "C06" => "one evaluation = one controlled execution of 2..4 real processes that create / open / open_or_create / drop the same publish-subscribe service name, each with its own settings or requirements (max publishers 2..3, max subscribers 2..3, history 0..1), interleaved by the controller at system-call and shared-memory-atomic granularity with a virtual clock; from the recorded call/return/drop observations the oracle checks: overlapping handles report identical settings, a creator's handle reports exactly its settings, no create succeeds while another process holds the service during the whole call, incompatible opens are refused and compatible ones accepted when the service lives during the whole call, every handle is usable at once, nobody ends in HangsInCreation/corrupted state, and no service resource remains after the last drop. distinct_nontrivial = distinct (scenario, schedule) signatures",
         "C07" => "one evaluation = one controlled execution of 2..4 real processes: a victim node going through creation, use and orderly destruction (or killed at a chosen yield) and 1..3 monitors/cleaners that list nodes and try to clean up, interleaved at system-call and shared-memory-atomic granularity with a virtual clock; a live process must never be reported Dead or be cleaned up, a killed one must not be reported Alive for ever, and at most one cleaner may succeed. distinct_nontrivial = distinct (scenario, schedule, kill point) signatures",
         "C09" => "one evaluation = one simulated execution of 2..3 threads doing generated acquire/release(/lock-if-last) sequences on a real index set or pool allocator of capacity 1..4, one run in four of the robust set kills a thread mid-operation and recovers its owner id; distinct_nontrivial = distinct (plan, schedule/fault signature) pairs among runs with at least one context switch or injected fault",
         _ => "one evaluation = one simulated execution of a generated scenario; distinct_nontrivial = distinct (plan, schedule/fault signature) pairs among runs with at least one context switch or injected fault",
